@@ -238,7 +238,7 @@ func checkOversize(c *report.Ctx) {
 		c.Check("R-WIRE", name+"/reads-whole-response", "the buffered path reads the whole response before judging its size", false, fpos(s.f), 0, "no io.ReadAll call")
 		return
 	}
-	_, argIsParam := readAll.Call.Args[0].(*ssa.Parameter)
+	argIsParam := an.IsInput(readAll.Call.Args[0])
 	c.Check("R-WIRE", name+"/reads-whole-response", "the size is judged on the complete response body (io.ReadAll of the payload itself, not a truncated view)", argIsParam, readAll.Pos(), 1, "ReadAll argument: %s", an.Path(readAll.Call.Args[0]))
 	isData := func(v ssa.Value) bool { cl, idx := an.CallOf(v); return cl == readAll && idx == 0 }
 	lenData := func(v ssa.Value) bool { x, ok := an.LenArg(v); return ok && isData(x) }
